@@ -44,6 +44,57 @@ verif_harness! {
     }
 }
 
+// ---- effective key length: every T1, fixed keys ------------------------------------------------------------------
+// The T8 / TM arithmetic ("TM = 255 MOD 2^(8 + T1 - 8*T8)") and the position 128 - T8 at which the backward pass starts are
+// data independent: they are decided here for every T1 with two fixed keys (lengths 8 and 13).  T1 is symbolic but pinned
+// to one value per path, so that each path is a concrete run of both expansions; the solver query covers all of them.
+fn t1_sweep<const LO: usize, const HI: usize, const KL: usize>(inp: &[u8]) -> Option<bool> {
+    let t1 = take_u16(inp, 0) as usize;
+    vassume!(LO <= t1 && t1 <= HI);
+    let mut key = [0u8; 128];
+    let mut i = 0;
+    while i < 13 {
+        key[i] = (0x3Bu8).wrapping_mul(i as u8 + 1) ^ 0xA5;
+        i += 1;
+    }
+    let mut t = LO;
+    while t <= HI {
+        if t == t1 {
+            return Some(expand_conf(&key, KL, t));
+        }
+        t += 1;
+    }
+    None
+}
+//@ harness name=rc2_expand_t1_12 prop=C09,C20 cbmc_args=--max-field-sensitivity-array-size;160 tier=quick bits=16 est=90 need=10 desc="D: Rc2::expand_key(K, T1) == RFC 2268 key expansion for every effective key length T1 in 1..=12 (every residue mod 8, T8 = 1 and 2) with a fixed 8-byte key: decides the effective-length mask TM = 255 mod 2^(8 + T1 - 8*T8), T8 and the start of the backward pass for these T1; the key-dependent look-up chain is decided for this key only (each T1 is a concrete run of both expansions, ~50 k program steps each; field sensitivity raised to 160 elements so that the 128-byte buffer stays concrete)"
+verif_harness! {
+    name: rc2_expand_t1_12,
+    bytes: 2,
+    unwind: 140,
+    prop: |inp| { t1_sweep::<1, 12, 8>(&inp[..]) }
+}
+//@ harness name=rc2_expand_t1_13k prop=C09,C20 cbmc_args=--max-field-sensitivity-array-size;160 tier=thorough bits=16 est=300 mem=30 desc="as rc2_expand_t1_12 with a 13-byte key (length not a power of two), T1 in 1..=16"
+verif_harness! {
+    name: rc2_expand_t1_13k,
+    bytes: 2,
+    unwind: 140,
+    prop: |inp| { t1_sweep::<1, 16, 13>(&inp[..]) }
+}
+//@ harness name=rc2_expand_t1_40 prop=C09,C20 cbmc_args=--max-field-sensitivity-array-size;160 tier=thorough bits=16 est=600 mem=30 desc="as rc2_expand_t1_12 for every T1 in 13..=40"
+verif_harness! {
+    name: rc2_expand_t1_40,
+    bytes: 2,
+    unwind: 140,
+    prop: |inp| { t1_sweep::<13, 40, 8>(&inp[..]) }
+}
+//@ harness name=rc2_expand_t1_top prop=C09,C20 cbmc_args=--max-field-sensitivity-array-size;160 tier=thorough bits=16 est=300 mem=30 desc="as rc2_expand_t1_12 for every T1 in 1009..=1024 (T8 = 127, 128: the backward pass is empty or one step)"
+verif_harness! {
+    name: rc2_expand_t1_top,
+    bytes: 2,
+    unwind: 140,
+    prop: |inp| { t1_sweep::<1009, 1024, 8>(&inp[..]) }
+}
+
 // ---- constructors: wiring around expand_key, which is replaced by an uninterpreted function of (key bytes, T1) ------
 // Two calls at most: the stub records the arguments of each call; the second call returns the first call's (arbitrary,
 // drawn from the harness input) result iff its arguments are equal to the first call's, else another arbitrary value.
@@ -84,7 +135,7 @@ pub fn stub_expand_key(key: &[u8], t1: usize) -> [u16; 64] {
     }
 }
 
-//@ harness name=rc2_new_from_slice prop=C09,C20 tier=quick bits=3096 stub=1 est=189 desc="W: Rc2::new_from_slice(k), len symbolic 0..=130, is Err exactly for len 0 or > 128 and otherwise holds expand_key(k, 8*len) -- the same round keys as new_with_eff_key_len(k, 8*len) (which holds expand_key(k, t1) for any t1); expand_key uninterpreted (its conformance for all (len, t1) is rc2_expand_*)"
+//@ harness name=rc2_new_from_slice prop=C09,C20 tier=quick bits=3096 stub=1 est=150 desc="W: Rc2::new_from_slice(k), len symbolic 0..=130, is Err exactly for len 0 or > 128 and otherwise holds expand_key(k, 8*len) -- the same round keys as new_with_eff_key_len(k, 8*len) (which holds expand_key(k, t1) for any t1); expand_key uninterpreted (its conformance for all (len, t1) is rc2_expand_*)"
 verif_harness! {
     name: rc2_new_from_slice,
     bytes: 131 + 256,
@@ -151,7 +202,7 @@ verif_harness! {
     }
 }
 
-//@ harness name=rc2_new_eff_w prop=C09 tier=quick bits=3112 stub=1 est=27 desc="W: Rc2::new_with_eff_key_len(k, t1) holds exactly expand_key(k, t1): key length symbolic 1..=128, t1 symbolic 1..=1024, arguments passed unchanged; expand_key uninterpreted"
+//@ harness name=rc2_new_eff_w prop=C09 tier=quick bits=3112 stub=1 est=15 desc="W: Rc2::new_with_eff_key_len(k, t1) holds exactly expand_key(k, t1): key length symbolic 1..=128, t1 symbolic 1..=1024, arguments passed unchanged; expand_key uninterpreted"
 verif_harness! {
     name: rc2_new_eff_w,
     bytes: 131 + 2 + 128,
@@ -214,7 +265,7 @@ fn arb_state(inp: &[u8; 136]) -> (Rc2, [u8; 8]) {
     (Rc2 { keys }, take(inp, 128))
 }
 
-//@ harness name=rc2_conf_enc prop=C09,C20 tier=quick bits=1088 est=149 desc="D: encrypt_block on an arbitrary round-key state K[0..63] (superset of all keys / effective lengths) == RFC 2268 encryption (5 mix, mash, 6 mix, mash, 5 mix), all blocks; mash indices in range"
+//@ harness name=rc2_conf_enc prop=C09,C20 tier=quick bits=1088 est=105 desc="D: encrypt_block on an arbitrary round-key state K[0..63] (superset of all keys / effective lengths) == RFC 2268 encryption (5 mix, mash, 6 mix, mash, 5 mix), all blocks; mash indices in range"
 verif_harness! {
     name: rc2_conf_enc,
     bytes: 136,
@@ -227,7 +278,7 @@ verif_harness! {
     }
 }
 
-//@ harness name=rc2_conf_dec prop=C09,C20 tier=quick bits=1088 est=172 desc="D: decrypt_block on an arbitrary round-key state == RFC 2268 decryption (r-mix / r-mash), all blocks; j never leaves 0..=63 where it is used"
+//@ harness name=rc2_conf_dec prop=C09,C20 tier=quick bits=1088 est=130 desc="D: decrypt_block on an arbitrary round-key state == RFC 2268 decryption (r-mix / r-mash), all blocks; j never leaves 0..=63 where it is used"
 verif_harness! {
     name: rc2_conf_dec,
     bytes: 136,
